@@ -18,12 +18,13 @@ Definition vocabulary_ok (l : list item) : Prop :=
 Definition list_ok (sl : slist) : Prop := sl_sorted sl = true /\ vocabulary_ok (sl_items sl).
 
 (* It holds after init_items, after every set_item + sort_items with a non-empty name, hence after
-   every '~' arm of convert (read_definition is the only place where the list changes); and the
+   every '~' arm of convert (read_definition is the only place where the list changes; it returns the
+   list, the rest of the text and the number of line breaks it stepped over); and the
    insertion sort of the model is THE stable sort by descending byte length. *)
 Theorem C17_sorted_invariant :
   list_ok init_items /\
   (forall sl name value, list_ok sl -> name <> [] -> list_ok (sort_items (set_item name value sl))) /\
-  (forall sl r, list_ok sl -> list_ok (fst (read_definition sl r))) /\
+  (forall sl r, list_ok sl -> list_ok (fst (fst (read_definition sl r)))) /\
   (forall l l', Sorted by_bytes_desc l' ->
      (forall k, filter (fun e => utf8_bytes (fst e) =? k) l' = filter (fun e => utf8_bytes (fst e) =? k) l) ->
      l' = sort_desc l).
@@ -98,16 +99,51 @@ Theorem C17_hash_comment_refuted :
   convert [99; 32; 35; 32; 12489] = Ok [99; 32; 35; 32; 99] /\ [99; 32; 35; 32; 99] <> strip_right [99; 32; 35; 32; 12489].
 Proof. exact hash_comment_refuted. Qed.
 
-(* A definition ~{name}={mml} (non-empty name, no braces inside) emits nothing and applies from its
-   point on: the rest is converted with the list updated by set_item + sort_items, the list stays
-   valid, and its scan is the specification's longest_match over `define name mml` of the old rows. *)
+(* A definition ~{name}={mml} (non-empty name, no braces inside) is removed from the text but its line
+   breaks stay: it emits exactly as many line breaks (character 10) as name and mml contain, nothing else
+   (so every later line keeps its number), and it applies from its point on: the rest is converted with the
+   list updated by set_item + sort_items, the list stays valid, and its scan is the specification's
+   longest_match over `define name mml` of the old rows.
+   line_breaks s = count_occ Z.eq_dec s 10 (spec/RewriteSpec.v). *)
 Theorem C17_user_defs : forall (f : nat) (sl : slist) (name value r : list Z),
   list_ok sl -> name <> [] -> brace_free name = true -> brace_free value = true ->
   (length (def_text name value ++ r) < f)%nat ->
   let sl' := sort_items (set_item name value sl) in
-  conv_loop f sl (def_text name value ++ r) = conv_loop f sl' r /\ list_ok sl' /\
+  conv_loop f sl (def_text name value ++ r)
+  = bind (conv_loop f sl' r) (fun o => Ok (repeat 10 (line_breaks (name ++ value)) ++ o)) /\ list_ok sl' /\
   forall s, scan (sl_items sl') s = longest_match (define name value (sl_items sl)) s.
 Proof. exact conv_user_def. Qed.
+
+(* A definition written on one line emits nothing (before the repair of the line numbers this was what
+   every definition did, line breaks inside it included). *)
+Theorem C17_user_defs_one_line : forall (f : nat) (sl : slist) (name value r : list Z),
+  list_ok sl -> name <> [] -> brace_free name = true -> brace_free value = true ->
+  ~ In 10 name -> ~ In 10 value ->
+  (length (def_text name value ++ r) < f)%nat ->
+  conv_loop f sl (def_text name value ++ r) = conv_loop f (sort_items (set_item name value sl)) r.
+Proof. exact conv_user_def_one_line. Qed.
+
+(* The '~' arm keeps the line count, however it ends (no '{' after '~'; a name but no value; an empty
+   name; a proper definition) and whatever it steps over (blanks, /* */ comments with line breaks in
+   them, nested braces): `removed` is the text from the marker c ('~', OVERLINE or their full-width
+   forms) to where the reading stops, `rest` what follows; the arm contributes `out` to the converted text,
+   and out is definition_residue removed = repeat 10 (line_breaks removed): the line breaks of the removed
+   text and nothing else. No side condition: CR (13) is not a line break on either side (the compiler's
+   line counter counts LF only). *)
+Theorem C17_definition_keeps_line_count : forall (f : nat) (sl : slist) (c : Z) (r : list Z),
+  list_ok sl -> zen2han c = 126 \/ zen2han c = 8254 -> (length (c :: r) < f)%nat ->
+  exists sl' removed rest out,
+    c :: r = removed ++ rest /\ sl' = fst (fst (read_definition sl r)) /\ rest = snd (fst (read_definition sl r)) /\
+    list_ok sl' /\
+    conv_loop f sl (c :: r) = bind (conv_loop f sl' rest) (fun o => Ok (out ++ o)) /\
+    out = definition_residue removed /\ line_breaks out = line_breaks removed.
+Proof. exact definition_keeps_line_count. Qed.
+
+(* The counter returned by read_definition is that number: the text it read has that many line breaks. *)
+Theorem C17_read_definition_lines : forall (sl : slist) (r : list Z),
+  exists removed, r = removed ++ snd (fst (read_definition sl r)) /\
+    snd (read_definition sl r) = Z.of_nat (line_breaks removed).
+Proof. exact read_definition_lines. Qed.
 
 (* Homomorphism: an unambiguous reading (every word is the longest match at its position, single
    characters start no word, nothing special) converts to the concatenation of the words' MML and the
@@ -167,6 +203,37 @@ Example C17_example_definition :
   convert (def_text [12376; 12517; 12540] [99] ++ [12489; 12376; 12517; 12540; 12524]) = Ok [99; 99; 100].
 Proof. repeat split; vm_compute; reflexivity. Qed.
 
+(* a definition over three lines: ~{x\ny}={c\nd} then ド - two line breaks are written, then the rest *)
+Example C17_example_multiline_definition :
+  brace_free [120; 10; 121] = true /\ brace_free [99; 10; 100] = true /\
+  line_breaks ([120; 10; 121] ++ [99; 10; 100]) = 2%nat /\
+  convert (def_text [120; 10; 121] [99; 10; 100] ++ [12489; 120; 10; 121]) = Ok [10; 10; 99; 99; 10; 100].
+Proof. repeat split; vm_compute; reflexivity. Qed.
+
+(* the witness of the repaired finding (C19): "~{x}={c\nd}\nPRINT(1)\n!" keeps PRINT on line 2 and '!' on line 3 *)
+Example C17_example_line_numbers_kept :
+  convert ([126; 123; 120; 125; 61; 123; 99; 10; 100; 125; 10] ++ [80; 82; 73; 78; 84; 40; 49; 41; 10; 33])
+  = Ok ([10; 10] ++ [80; 82; 73; 78; 84; 40; 49; 41; 10; 33]).
+Proof. vm_compute. reflexivity. Qed.
+
+(* the four ways the arm ends, each stepping over line breaks; read_definition returns (list, rest, count):
+   "~ /*\n*/ c"            no '{' after the marker and a comment: 1 line break, rest "c";
+   "~{a\n} /*\n\n*/ c"     a name but no value: 3, rest "c";
+   "~{}=/*\n*/{\nv}c"       empty name: 2, rest "c", the list is unchanged;
+   "~ {a} = /*\n*/ {v\n}c" proper definition with blanks and a comment between the parts: 2, rest "c";
+   and "c" + that definition + "\na" converts to "c\n\nc\nv" (a -> "v\n", the final line break is trimmed) *)
+Example C17_example_four_endings :
+  snd (read_definition init_items [32; 47; 42; 10; 42; 47; 32; 99]) = 1 /\
+  snd (fst (read_definition init_items [32; 47; 42; 10; 42; 47; 32; 99])) = [99] /\
+  snd (read_definition init_items [123; 97; 10; 125; 32; 47; 42; 10; 10; 42; 47; 32; 99]) = 3 /\
+  snd (fst (read_definition init_items [123; 97; 10; 125; 32; 47; 42; 10; 10; 42; 47; 32; 99])) = [99] /\
+  read_definition init_items [123; 125; 61; 47; 42; 10; 42; 47; 123; 10; 118; 125; 99] = (init_items, [99], 2) /\
+  snd (read_definition init_items [32; 123; 97; 125; 32; 61; 32; 47; 42; 10; 42; 47; 32; 123; 118; 10; 125; 99]) = 2 /\
+  snd (fst (read_definition init_items [32; 123; 97; 125; 32; 61; 32; 47; 42; 10; 42; 47; 32; 123; 118; 10; 125; 99])) = [99] /\
+  convert ([99; 126] ++ [32; 123; 97; 125; 32; 61; 32; 47; 42; 10; 42; 47; 32; 123; 118; 10; 125; 99] ++ [10; 97])
+  = Ok [99; 10; 10; 99; 10; 118].
+Proof. repeat split; vm_compute; reflexivity. Qed.
+
 Print Assumptions C17_sorted_invariant.
 Print Assumptions C17_longest.
 Print Assumptions C17_zen2han.
@@ -177,6 +244,9 @@ Print Assumptions C17_strings_comments_verbatim.
 Print Assumptions C17_unterminated.
 Print Assumptions C17_hash_comment_refuted.
 Print Assumptions C17_user_defs.
+Print Assumptions C17_user_defs_one_line.
+Print Assumptions C17_definition_keeps_line_count.
+Print Assumptions C17_read_definition_lines.
 Print Assumptions C17_homomorphism_general.
 Print Assumptions C17_homomorphism.
 Print Assumptions C17_same_mml.
